@@ -131,6 +131,8 @@ static DELAY_SEED: AtomicU64 = AtomicU64::new(0);
 static HOOK_CALLS: AtomicU64 = AtomicU64::new(0);
 static HOLD_SITE: Mutex<Option<&'static str>> = Mutex::new(None);
 static RUNNING: AtomicBool = AtomicBool::new(false);
+/// own-area thresholds (use, collect) of the visual trackers of the current run, in 1/1000
+static OWN_AREA: Mutex<(u32, u32)> = Mutex::new((0, 0));
 
 fn gates() -> &'static Arc<Gates> {
     GATES.get_or_init(Gates::new)
@@ -199,6 +201,8 @@ fn visual_opts() -> VisualSortOptions {
         .visual_minimal_quality_collect(0.7)
         .visual_max_observations(3)
         .visual_min_votes(1)
+        .visual_minimal_own_area_percentage_use(OWN_AREA.lock().unwrap().0 as f32 / 1000.0)
+        .visual_minimal_own_area_percentage_collect(OWN_AREA.lock().unwrap().1 as f32 / 1000.0)
 }
 
 fn new_batch_tracker(kind: &str, d: usize, v: usize) -> BatchTracker {
@@ -448,12 +452,14 @@ fn run_case(kind: &str, d: usize, v: usize, mode: &str, dseed: u64, hist: &[Batc
         None => "PANIC".into(),
     };
     println!(
-        "run kind={} d={} v={} mode={} dseed={} hist={} batch={} simple={} log={} status={}",
+        "run kind={} d={} v={} mode={} dseed={} oau={} oac={} hist={} batch={} simple={} log={} status={}",
         kind,
         d,
         v,
         mode,
         dseed,
+        OWN_AREA.lock().unwrap().0,
+        OWN_AREA.lock().unwrap().1,
         enc_hist(hist),
         batch_s,
         simple_s,
@@ -625,6 +631,61 @@ fn gen_large(rng: &mut Rng, visual: bool, nscenes: usize) -> Vec<Batch> {
     hist
 }
 
+/// Occlusion stream for the visual pair (own-area thresholds): per scene two established objects A and B with
+/// far-apart features; then a detection X at A's place that is mostly covered by a bigger box Y of the same scene
+/// (X keeps ~20% of its area, Y ~49%) and whose appearance disagrees with its position:
+///   variant U: X carries B's look (B itself is not detected): with the use-gate X goes to A by position, without it
+///              to B by appearance;
+///   variant C: X carries a new look D, and one frame later an unoccluded detection Z with look D shows up far away
+///              (A is not detected): Z joins A only if X's feature was collected in spite of the collect-gate.
+/// Box edges never share a coordinate line (the geo dependency's boolean ops are fragile there, C15).
+fn gen_occlusion(rng: &mut Rng) -> Vec<Batch> {
+    let nscenes = 1 + rng.below(3) as usize;
+    let variants: Vec<bool> = (0..nscenes).map(|_| rng.chance(1, 2)).collect(); // true = U, false = C
+    let base: Vec<(f32, f32)> = (0..nscenes).map(|_| (rng.dyadic(0, 40, 2), rng.dyadic(0, 40, 2))).collect();
+    let feat = |rng: &mut Rng, x: f32, y: f32| Some(vec![x + rng.dyadic(0, 4, 5), y + rng.dyadic(0, 4, 5)]);
+    let mk = |x: f32, y: f32, h: f32, f: Option<Vec<f32>>| Det { x, y, aspect: 0.625, h, conf: 1.0, custom: None, q: Some(0.9), feat: f };
+    let mut hist = vec![];
+    for f in 0..5usize {
+        let mut b: Batch = vec![];
+        for si in 0..nscenes {
+            let (bx, by) = base[si];
+            let ax = bx + 1.25 * f as f32;
+            let bxx = bx + 200.0 + 0.75 * f as f32;
+            let mut ds = vec![];
+            match f {
+                0 | 1 | 2 => {
+                    ds.push(mk(ax, by, 32.0, feat(rng, 0.0, 0.0)));
+                    ds.push(mk(bxx, by + 3.0, 32.0, feat(rng, 4.0, 0.0)));
+                }
+                3 => {
+                    let look = if variants[si] { (4.0, 0.0) } else { (8.0, 8.0) };
+                    ds.push(mk(ax, by, 32.0, feat(rng, look.0, look.1))); // X
+                    ds.push(mk(ax + 6.0, by + 5.0, 40.0, feat(rng, 0.0, 4.0))); // Y, the occluder
+                    if !variants[si] {
+                        ds.push(mk(bxx, by + 3.0, 32.0, feat(rng, 4.0, 0.0)));
+                    }
+                }
+                _ => {
+                    if variants[si] {
+                        ds.push(mk(ax, by, 32.0, feat(rng, 0.0, 0.0)));
+                        ds.push(mk(bxx, by + 3.0, 32.0, feat(rng, 4.0, 0.0)));
+                    } else {
+                        ds.push(mk(bx + 400.0, by + 100.0, 32.0, feat(rng, 8.0, 8.0))); // Z
+                        ds.push(mk(bxx, by + 3.0, 32.0, feat(rng, 4.0, 0.0)));
+                    }
+                }
+            }
+            if rng.chance(1, 2) {
+                ds.reverse();
+            }
+            b.push((2 + 5 * si as u64, ds));
+        }
+        hist.push(b);
+    }
+    hist
+}
+
 fn gen(seed: u64, n: usize, tier: &str) {
     let mut rng = Rng::new(seed);
     let thorough = tier == "thorough";
@@ -663,6 +724,18 @@ fn gen(seed: u64, n: usize, tier: &str) {
             }
         }
     }
+    // visual pair with own-area thresholds: use only / collect only / both / none
+    let reps = if thorough { 6 } else { 2 };
+    for rep in 0..reps {
+        for (u, c) in [(1u32, 0u32), (0, 1), (1, 1), (0, 0)] {
+            let val = |on: u32, rng: &mut Rng| if on == 1 { 300 + 125 * rng.below(5) as u32 } else { 0 };
+            let (uu, cc) = (val(u, &mut rng), val(c, &mut rng));
+            *OWN_AREA.lock().unwrap() = (uu, cc);
+            let hist = gen_occlusion(&mut rng);
+            run_case("visual", 1 + (rep % 4), 1 + rng.below(3) as usize, if rng.chance(1, 2) { "A" } else { "B" }, 1 + rng.below(1 << 40), &hist);
+        }
+    }
+    *OWN_AREA.lock().unwrap() = (0, 0);
     // probes of the monitor
     for (i, site) in ["vote_job_begin", "vote_store_write", "vote_send"].iter().enumerate() {
         let kind = if i % 2 == 1 { "visual" } else { "sort" };
@@ -691,6 +764,10 @@ fn replay(path: &str) {
         }
         let hist = dec_hist(m.get("hist").map(|s| s.as_str()).unwrap_or(""));
         let kind = m.get("kind").cloned().unwrap_or("sort".into());
+        *OWN_AREA.lock().unwrap() = (
+            m.get("oau").map(|x| x.parse().unwrap()).unwrap_or(0),
+            m.get("oac").map(|x| x.parse().unwrap()).unwrap_or(0),
+        );
         if let Some(site) = m.get("site") {
             let site: &'static str = match site.as_str() {
                 "vote_job_begin" => "vote_job_begin",
